@@ -140,9 +140,31 @@ pub fn push_decoder_flat<K: BufKind>(stream: &[u8]) -> Vec<Ev> {
     v
 }
 
+/// Which kind of iterator a stream is handed over as (a deterministic function of the stream): the
+/// generic entry points accept any `IntoIterator` over `u8` or `&u8`, and iterators differ in what
+/// their `size_hint()` says (exact, lower bound 0, nothing at all).
+pub fn iter_flavour(stream: &[u8]) -> usize {
+    (stream.len() * 7 + stream.iter().take(3).map(|b| *b as usize).sum::<usize>()) % 5
+}
+
+fn unhinted<'a>(stream: &'a [u8]) -> impl Iterator<Item = u8> + 'a {
+    let mut i = 0;
+    std::iter::from_fn(move || {
+        let r = stream.get(i).copied();
+        i += 1;
+        r
+    })
+}
+
 pub fn decode_fn(stream: &[u8]) -> Vec<Ev> {
-    decode(stream)
-        .into_iter()
+    let res = match iter_flavour(stream) {
+        0 => decode(stream),
+        1 => decode(stream.to_vec()),
+        2 => decode(stream.iter().filter(|_| true)),
+        3 => decode(unhinted(stream)),
+        _ => decode(stream.iter().copied().chain(std::iter::empty())),
+    };
+    res.into_iter()
         .map(|r| match r {
             Ok(m) => Ev::Msg(m),
             Err(e) => Ev::Err(e),
@@ -150,17 +172,14 @@ pub fn decode_fn(stream: &[u8]) -> Vec<Ev> {
         .collect()
 }
 
-/// `decode_streaming` driven until it returns None, then `extra` more calls.
-/// Err(msg) if the step cap is exceeded or a later call yields something.
-pub fn decode_streaming_fn<K: BufKind>(stream: &[u8], extra: usize) -> Result<Vec<Ev>, String> {
-    let mut it = decode_streaming::<K::B>(stream);
-    let cap = stream.len() + 2;
+fn drive_decode_iterator<B: Buffer, I: Iterator<Item = u8>>(mut it: sml_rs::transport::DecodeIterator<B, I>, n: usize, extra: usize) -> Result<Vec<Ev>, String> {
+    let cap = n + 2;
     let mut out = Vec::new();
     let mut calls = 0;
     loop {
         calls += 1;
         if calls > cap {
-            return Err(format!("decode_streaming yielded more than {} items for {} input bytes", cap, stream.len()));
+            return Err(format!("decode_streaming yielded more than {} items for {} input bytes", cap, n));
         }
         match it.next() {
             None => break,
@@ -174,6 +193,19 @@ pub fn decode_streaming_fn<K: BufKind>(stream: &[u8], extra: usize) -> Result<Ve
         }
     }
     Ok(out)
+}
+
+/// `decode_streaming` driven until it returns None, then `extra` more calls.
+/// Err(msg) if the step cap is exceeded or a later call yields something.
+pub fn decode_streaming_fn<K: BufKind>(stream: &[u8], extra: usize) -> Result<Vec<Ev>, String> {
+    let n = stream.len();
+    match iter_flavour(stream) {
+        0 => drive_decode_iterator(decode_streaming::<K::B>(stream), n, extra),
+        1 => drive_decode_iterator(decode_streaming::<K::B>(stream.to_vec()), n, extra),
+        2 => drive_decode_iterator(decode_streaming::<K::B>(stream.iter().filter(|_| true)), n, extra),
+        3 => drive_decode_iterator(decode_streaming::<K::B>(unhinted(stream)), n, extra),
+        _ => drive_decode_iterator(decode_streaming::<K::B>(stream.iter().copied().chain(std::iter::empty())), n, extra),
+    }
 }
 
 // ---------------------------------------------------------------------------------------
@@ -279,7 +311,14 @@ pub fn reader_iter<K: BufKind>(stream: &[u8], poll: Poll, extra: usize) -> Resul
     let n = Rc::new(Cell::new(0usize));
     let n2 = n.clone();
     let it = stream.iter().inspect(move |_| n2.set(n2.get() + 1));
-    drive_reader!(K::builder().from_iterator(it), conv_eof, poll, cap, extra, || n.get())
+    match iter_flavour(stream) % 3 {
+        0 => drive_reader!(K::builder().from_iterator(it), conv_eof, poll, cap, extra, || n.get()),
+        1 => drive_reader!(K::builder().from_iterator(it.filter(|_| true)), conv_eof, poll, cap, extra, || n.get()),
+        _ => {
+            let mut it = it;
+            drive_reader!(K::builder().from_iterator(std::iter::from_fn(move || it.next().copied())), conv_eof, poll, cap, extra, || n.get())
+        }
+    }
 }
 
 pub fn reader_iter_default(stream: &[u8], poll: Poll, extra: usize) -> Result<Vec<(usize, Ev)>, String> {
